@@ -132,13 +132,15 @@ func (r *gatewayController) buildDesiredHTTPRoute(rules []gatewayv1beta1.HTTPRou
 	if weight != nil && *weight == -1 {
 		for i := range rules {
 			rule := rules[i]
+			_, canaryRef := getServiceBackendRef(rule, r.conf.CanaryService)
 			filterOutServiceBackendRef(&rule, r.conf.CanaryService)
 			_, stableRef := getServiceBackendRef(rule, r.conf.StableService)
 			if stableRef != nil {
 				stableRef.Weight = utilpointer.Int32(1)
 				setServiceBackendRef(&rule, *stableRef)
 			}
-			if len(rule.BackendRefs) != 0 {
+			// drop the generated canary rules (left without backend), keep every rule the user wrote
+			if len(rule.BackendRefs) != 0 || canaryRef == nil {
 				desired = append(desired, rule)
 			}
 		}
